@@ -571,8 +571,37 @@ fn failing_launch_among_live_children(ctx: &mut Ctx, rng: &mut Rng, i: u64) {
     };
     let _ = spawn::get_report(&exe_a, 3000);
     let exe_b = spawn::report_exe(ctx, &dir, "b", "x");
-    let how = ["identity-refused", "exec-fails:ETXTBSY", "exec-fails:EAGAIN", "exec-fails:ENOMEM", "chdir-refused"][(i % 5) as usize];
+    let how = ["identity-refused", "exec-fails:ETXTBSY", "exec-fails:EAGAIN", "exec-fails:ENOMEM", "chdir-refused", "program-missing/stderr-is-a-full-pipe", "nowhere-to-look-on-PATH"][(i % 7) as usize];
     let mut cfg = PopenConfig { stdout: if rng.chance(500) { Redirection::Pipe } else { Redirection::None }, ..Default::default() };
+    let mut argv_b = vec![exe_b.clone().into_os_string()];
+    let mut full_pipe: Option<(i32, std::fs::File)> = None;
+    let old_path = std::env::var_os("PATH");
+    match how {
+        "program-missing/stderr-is-a-full-pipe" => {
+            // the command's stderr is a pipe of the caller's that is full at the moment and that the caller reads only
+            // after the launch has returned (a log collector): nothing the launch does may depend on it being drained
+            use std::os::unix::io::FromRawFd;
+            let mut fds = [0i32; 2];
+            let _g = inspect::proc_guard();
+            if unsafe { libc::syscall(libc::SYS_pipe2, fds.as_mut_ptr(), libc::O_CLOEXEC) } == 0 {
+                unsafe {
+                    libc::syscall(libc::SYS_fcntl, fds[1], libc::F_SETFL, libc::O_NONBLOCK);
+                    let junk = [b'.'; 4096];
+                    while libc::syscall(libc::SYS_write, fds[1], junk.as_ptr(), junk.len()) > 0 {}
+                    while libc::syscall(libc::SYS_write, fds[1], junk.as_ptr(), 1usize) > 0 {}
+                    libc::syscall(libc::SYS_fcntl, fds[1], libc::F_SETFL, 0);
+                    cfg.stderr = Redirection::File(std::fs::File::from_raw_fd(fds[1]));
+                    full_pipe = Some((fds[0], std::fs::File::from_raw_fd(fds[0])));
+                }
+            }
+            argv_b = vec![dir.join("no-such-program").into_os_string()];
+        }
+        "nowhere-to-look-on-PATH" => {
+            std::env::set_var("PATH", [":", "::", ":::"][(i / 7 % 3) as usize]);
+            argv_b = vec![std::ffi::OsString::from("no-such-program-anywhere")];
+        }
+        _ => {}
+    }
     match how {
         "identity-refused" => {
             if rng.chance(500) {
@@ -582,6 +611,7 @@ fn failing_launch_among_live_children(ctx: &mut Ctx, rng: &mut Rng, i: u64) {
             }
         }
         "chdir-refused" => cfg.cwd = Some(dir.join("no/such/dir").into_os_string()),
+        "program-missing/stderr-is-a-full-pipe" | "nowhere-to-look-on-PATH" => {}
         _ => {
             let e = match how {
                 "exec-fails:ETXTBSY" => libc::ETXTBSY,
@@ -594,8 +624,16 @@ fn failing_launch_among_live_children(ctx: &mut Ctx, rng: &mut Rng, i: u64) {
     // the caller has exit-time work registered (atexit); in every other case that work cannot finish in a forked copy
     let handler_blocks = (i / 5) % 2 == 1;
     ilog::EXIT_HANDLER_BLOCKS.store(handler_blocks, std::sync::atomic::Ordering::SeqCst);
-    let m = run::monitored(|| Popen::create(&[exe_b.clone().into_os_string()], cfg));
+    let m = run::monitored(|| Popen::create(&argv_b, cfg));
     ilog::EXIT_HANDLER_BLOCKS.store(false, std::sync::atomic::Ordering::SeqCst);
+    if how == "nowhere-to-look-on-PATH" {
+        match &old_path {
+            Some(p) => std::env::set_var("PATH", p),
+            None => std::env::remove_var("PATH"),
+        }
+    }
+    drop(full_pipe);
+    let child_panics = ilog::shared().map(|s| s.child_panics.load(std::sync::atomic::Ordering::SeqCst)).unwrap_or(0);
     let evs = m.events();
     ctx.count("failing_launches_while_another_command_is_alive", 1);
     ctx.count("failing_launches_in_a_caller_with_exit_handlers", 1);
@@ -604,6 +642,9 @@ fn failing_launch_among_live_children(ctx: &mut Ctx, rng: &mut Rng, i: u64) {
     let w = |extra: J| J::obj().set("failure", J::s(how)).set("result", J::s(&result_text)).set("child_side_events", J::arr_s(&child_events)).set("detail", extra);
     if ilog::child_escapes() > 0 {
         ctx.violation(&format!("C08/forked-copy-of-the-caller-lives-on/{}", how), "the child forked for the failing launch returned into the caller's code: a second copy of the caller, holding the parent's side of every pipe of every live command", w(J::Null));
+    }
+    if child_panics > 0 {
+        ctx.violation(&format!("C08/forked-child-panics-in-the-callers-code/{}", how), "the child forked for the failing launch panicked: a copy of the caller, holding the parent's side of every pipe of every live command, unwinds through the caller's frames instead of reporting the failure and leaving", w(J::Null));
     }
     if ilog::child_exit_handlers() > 0 {
         ctx.violation(
